@@ -1410,4 +1410,26 @@ example :
        (⟨"_x._tcp.local.", 12, 1, false, 120, 1000, .ptr "A._x._tcp.local."⟩, none)])).2.length = 2 := by decide
 
 end
+
+/-! ## Tie: the browser's live set against the *generated* cache
+
+The browser run keeps the cache of C05/C06 (`C04_run_cache`); that cache is the abstraction of the generated `DNSCache` stepped through
+the translated operations along the same history (`FnCacheRun.srcCacheAfter_abs`).  So "reported live = cached" holds for the translated
+`async_get_unique` on the generated cache.  The browser callbacks themselves (`Browser`, `possible_types`) are hand-written models. -/
+section Tie
+variable (lower : String → String) (possible : String → List String)
+open Zc.Py Zc.GenFn.Cache Zc.GenFacts.FnCache Zc.GenFacts.FnCacheRun
+
+/-- **C04 (live set = cached pointer records), read off the generated cache** -/
+theorem C04_live_eq_cache_source (types : List String) (pre : List Event) (t0 : Ms) (evs : List Event)
+    (hwf : WFHistory lower possible types pre evs) (t : String) (ht : t ∈ types) (a : String) :
+    reportedLive lower (browserRunFrom lower possible pre t0 types evs).batches t a
+      = ((srcCacheAfter lower (pre ++ [.purge t0] ++ evs)).async_get_unique lower (ptrRec t a)).isSome := by
+  obtain ⟨hb, hj⟩ := srcCacheAfter_abs lower (pre ++ [.purge t0] ++ evs)
+  rw [async_get_unique_eq lower _ _ hj, hb]
+  have h1 := C04_live_eq_cache lower possible types pre t0 evs hwf t ht a
+  rw [C04_run_cache lower possible t0 hwf] at h1
+  exact h1
+
+end Tie
 end Zc
